@@ -119,6 +119,24 @@ def run(ctx):
     ctx.dist("kern_dec_validate_auth", len(ops))
     ctx.sample(ops[777]); ctx.sample(ops[-1])
     judge.run_and_judge(ctx, "auth-kernel", ops, [hreal], [drv], oracle=kern_oracle, what="authorisation kernel")
+    # "… or whose UID the group database (as last loaded, via the user database) lists as a member of g": the membership answer
+    # is a parameter of the theorems above; here the REAL gids_is_member (gids.c/hash.c, scripted databases) is exercised with the
+    # C17 machinery so that a membership bug is reported under this property too.
+    try:
+        from ..gen import g_gids
+        from . import c17
+        if g_gids.generate(ctx):
+            hg = cbuild.build(ctx, "h_gids", c17.SRCS)
+            if hg:
+                gg = c17.Gen(ctx, getattr(ctx, "gids_consts", {}))
+                gops = list(c17.FIXED) + [gg.basic() for _ in range(80 if ctx.tier == "quick" else 800)]
+                gops = [o for o in gops if o.split()[1] == "gnu"]
+                for o in gops:
+                    ctx.distinct(o)
+                ctx.dist("real_gids_membership_scenarios", len(gops))
+                judge.run_and_judge(ctx, "membership-real", gops, [hg], [drv], oracle=c17.Oracle(), what="group membership used for authorisation")
+    except Exception as e:      # the C17 cluster is optional for this check
+        ctx.log("membership-real stream skipped: %r" % e)
     ops, expect, nenc = histories(ctx, htoy)
     ctx.dist("history_unauthorised_attempts", len([e for e in expect if e and e[0] == "unauth"]))
     ctx.dist("history_authorised_attempts", len([e for e in expect if e and e[0] == "auth"]))
